@@ -1,4 +1,5 @@
 import AlgopyVerif.Proofs.Lift
+import AlgopyVerif.Proofs.TapeNatural
 /-!
 # C11 — directions are propagated independently
 
@@ -12,9 +13,14 @@ Model level (L2, `Model/Utpm.lean`), for all `D`, `P`, shapes:
   on both sides: result direction `p` is a function of direction `p` of the operands
   only.
 
-Matrix kernels and the reverse sweep have explicit `p` loops in the code; for those the
-property is checked on the implementation by per-direction re-evaluation (correspondence
-run), not yet by a theorem (partial).
+**Reverse sweep** (`reverse_sweep_direction`): over the ring `Fin P → S` of `P` directions (one element of `S = ℝ[t]/(t^D)` per
+direction), the adjoints of direction `p` produced by the reverse sweep of any tape whose computations act direction by direction
+(the compatibility hypothesis: ring operations satisfy it for free, `ring_ops_direction_compatible`; a series kernel satisfies it by
+`elementwise_direction`) are the adjoints produced by the sweep of direction `p` alone.  No information flows between directions
+in the sweep either.
+
+Matrix kernels have explicit `p` loops in the code; for those the property is checked on the implementation by per-direction
+re-evaluation (correspondence run), not by a theorem (partial).
 -/
 open AV NdArray
 namespace AV.C11
@@ -42,5 +48,38 @@ theorem direction_series (p : Nat) (x : NdArray K) (D P : Nat) (s : List Nat) (h
 
 /-- non-vacuity: a valid index of a concrete shape -/
 example : ValidIdx [2, 3] [1, 2] := by simp [ValidIdx]
+
+
+section
+open AV.Tape
+variable {S : Type} [CommRing S]
+
+/-- **the reverse sweep does not mix directions**: for tapes over `P` directions whose computations act direction by direction,
+direction `p` of every adjoint is the adjoint of the sweep of direction `p` alone (values and seeds projected) -/
+theorem reverse_sweep_direction (P : Nat) (p : Fin P) (t : List (Instr (Fin P → S))) (t' : List (Instr S))
+    (hc : List.Forall₂ (Instr.Compat (fun x : Fin P → S => x p)) t t') (h bar : Heap (Fin P → S)) (c : Nat) :
+    (rev t h bar c) p = rev t' (fun i => h i p) (fun i => bar i p) c :=
+  congrFun (rev_natural (fun x : Fin P → S => x p) (fun _ _ => rfl) rfl t t' hc h bar) c
+
+/-- the forward evaluation as well -/
+theorem forward_sweep_direction (P : Nat) (p : Fin P) (t : List (Instr (Fin P → S))) (t' : List (Instr S))
+    (hc : List.Forall₂ (Instr.Compat (fun x : Fin P → S => x p)) t t') (h : Heap (Fin P → S)) (c : Nat) :
+    (fwd t h c) p = fwd t' (fun i => h i p) c :=
+  congrFun (fwd_natural (fun x : Fin P → S => x p) t t' hc h) c
+
+/-- ring operations act direction by direction (so every polynomial program satisfies the hypothesis) -/
+theorem ring_ops_direction_compatible (P : Nat) (p : Fin P) (dst a b : Nat) :
+    Comp.Compat (fun x : Fin P → S => x p) (addComp dst a b) (addComp dst a b)
+    ∧ Comp.Compat (fun x : Fin P → S => x p) (subComp dst a b) (subComp dst a b)
+    ∧ Comp.Compat (fun x : Fin P → S => x p) (mulComp dst a b) (mulComp dst a b) :=
+  ⟨addComp_compat (Pi.evalRingHom (fun _ : Fin P => S) p) dst a b,
+   subComp_compat (Pi.evalRingHom (fun _ : Fin P => S) p) dst a b,
+   mulComp_compat (Pi.evalRingHom (fun _ : Fin P => S) p) dst a b⟩
+
+/-- non-vacuity: the tape `c2 := c0 * c1; c0 := c2` over two directions is compatible with itself over one -/
+example : List.Forall₂ (Instr.Compat (fun x : Fin 2 → ℤ => x 1))
+    [.comp (mulComp 2 0 1), .write 0 2] [.comp (mulComp 2 0 1), .write 0 2] :=
+  .cons (.comp _ _ (mulComp_compat (Pi.evalRingHom (fun _ : Fin 2 => ℤ) 1) 2 0 1)) (.cons (.write 0 2) .nil)
+end
 
 end AV.C11
